@@ -747,6 +747,10 @@ class ExtRelativeName:
                 return def_obj
 
             tmp_list = resolve_model_path(def_obj, self.path_to_target)
+            if type(tmp_list) is Postponed:
+                # the path crosses a reference that is not resolved yet
+                self.postponed_counter += 1
+                return tmp_list
             assert tmp_list is not None
             # expected to point to  alist
             if not isinstance(tmp_list, list):
